@@ -5,6 +5,7 @@
 From PF Require Import Base.Bytes Formats.Splat Formats.SplatProofs Formats.Spz Formats.SpzProofs.
 From Coq Require Import QArith Qabs.
 From PF Require Formats.SplatReal.
+From PF Require Formats.PlyRead Formats.PlyWrite Formats.PlyWriteProofs Formats.SplatPlyLink.
 From Coq Require Reals.
 Open Scope N_scope.
 
@@ -177,6 +178,34 @@ Proof.
   split; [exact splatply_names_back|exact ply_body_length].
 Qed.
 Print Assumptions splatply_roundtrip_partial.
+
+(* The vertex block through the PLY reader model (Formats/PlyRead.v, C08) with the reader layout of
+   the written groups (Formats/PlyWriteProofs.v, C04): a cloud given as attribute -> n rows of float32
+   words is laid out by the SplatPly table as [ply_body] and read back, vertex by vertex and
+   attribute by attribute in table order, as the float64 image [cvF] of exactly the words written
+   ("all splat attributes at float32 precision"); the bytes after the block are left untouched.
+   Still _partial with respect to the full statement: the header text and the step "parse the header
+   and build the readers = [layout]" are C04's mesh-level glue, not proved there yet. *)
+Module SplatPlyVertex.
+Import PlyRead PlyWrite PlyWriteProofs SplatPlyLink.
+Import Coq.Strings.String.
+Open Scope list_scope.
+Theorem splatply_vertex_roundtrip_partial : forall (n : nat) (data : list adata) (rest : list N),
+  data_ok n data ->
+  let gs := splat_groups data in
+  read_vertices_bin LEnd (layout true gs 0) (record_size (vertex_props gs)) n (ply_body (group_rows gs n) ++ rest)
+  = Ok (map (fun i => map (fun g => map cvF (rowi g i)) gs) (seq 0 n), rest).
+Proof. exact splatply_cloud_roundtrip. Qed.
+Print Assumptions splatply_vertex_roundtrip_partial.
+(* non-vacuity: a one-splat cloud with a position and an opacity is well formed for the table *)
+Example splatply_example :
+  data_ok 1 [("Position"%string, [[1065353216; 0; 3212836864]]); ("Opacity"%string, [[1056964608]])] /\
+  List.length (splat_groups [("Position"%string, [[1065353216; 0; 3212836864]]); ("Opacity"%string, [[1056964608]])]) = 2%nat.
+Proof.
+  split; [|vm_compute; reflexivity]. unfold data_ok. vm_compute splat_groups.
+  repeat constructor; unfold word32; cbn; lia.
+Qed.
+End SplatPlyVertex.
 
 (* ====================== non-vacuity ====================== *)
 (* a two-splat cloud (identity rotation; saturated colours) meets the hypotheses, is written to 64
